@@ -622,9 +622,11 @@ inline Verdict check_steps(LoopProblem const& P, std::vector<StepRec> const& rec
                 // recorded finding (field + MSC): the lateral MSC displacement 0.73 sqrt(t^2-g^2)
                 // is added to the chord of a curved path, so |dx| <= g + 0.73 sqrt(t^2-g^2)
                 // <= 1.2381 t.  Anything beyond that bound is something else.
-                bool const recorded = in_field && has_msc(P.cfg.along)
-                                      && dx <= 1.2381 * s.step_length + slack;
-                Verdict v{recorded ? "steps:shorter-than-displacement[field+msc]"
+                bool const charged_msc = has_msc(P.cfg.along)
+                                         && s.particle != int(P.gamma.unchecked_get());
+                bool const recorded = charged_msc && dx <= 1.2381 * s.step_length + slack;
+                Verdict v{recorded ? (in_field ? "steps:shorter-than-displacement[field+msc]"
+                                               : "steps:shorter-than-displacement[msc]")
                                    : "steps:shorter-than-displacement",
                           where() + fmt(": length %.17g < displacement %.17g", s.step_length, dx)};
                 if (!recorded)
